@@ -15,8 +15,13 @@ Proof. exact spec_ok_on_model. Qed.
 Theorem C18_spec_ok_serve_iff : forall entries steps o,
   spec_ok (CServe entries steps) o = true <->
   wf_case (CServe entries steps) = true /\
-  o = OServe (map (spec_sout (spec_allowlist_s (map snd entries))) steps).
+  exists l, o = OServe l /\ l = spec_souts (spec_allowlist_s (map snd entries)) steps l.
 Proof. exact spec_ok_serve_iff. Qed.
+
+Theorem C18_spec_souts_meaning : forall al steps l,
+  l = spec_souts al steps l <->
+  length l = length steps /\ forall i st o, nth_error steps i = Some st -> nth_error l i = Some o -> o = spec_sout al st o.
+Proof. exact spec_souts_meaning. Qed.
 
 Theorem C18_spec_ok_entry_sound : forall e intent peers o,
   spec_ok (CEntry e intent peers) o = true ->
@@ -145,15 +150,15 @@ Example C18_example :
   let e1 := {| e_addr := 2130706432; e_plen := 30; e_plain := false |} in
   let e2 := {| e_addr := 2131296257; e_plen := 32; e_plain := true |} in
   let c := CServe [(print_entry4 e1, E4 e1); (print_entry4 e2, E4 e2); ([58; 58; 49], EP (V6 1, 128))]
-             [SConn (V4 2130706435) [114; 49] [[47; 109]; health; health ++ [63; 120]];
-              SConn (V4 2130706436) [114; 49] [[47; 109]];
+             [SConn (V4 2130706435) [114; 49] [[47; 109]; health; health ++ [63; 120] ++ fill 97 9000] None;
+              SConn (V4 2130706436) [114; 49] [[47; 109]] (Some (431, [47]));  (* forbidden, and beyond the limits *)
               SFault 0 (V4 2130706433); SInc;
               SBurst 2 (V4 2131296257) [114; 50] [47];
-              SConn (V6 1) [114; 50] [[47]];                                (* ::1 is listed *)
-              SConn (V6 (65535 * 2 ^ 32 + 2130706433)) [114; 50] [[47]];    (* ::ffff:127.0.0.1 is not 127.0.0.1 *)
-              SConn (V4 1) [114; 50] [[47]]] in                             (* 0.0.0.1 is not ::1 *)
+              SConn (V6 1) [114; 50] [[47]] None;                           (* ::1 is listed *)
+              SConn (V6 (65535 * 2 ^ 32 + 2130706433)) [114; 50] [[47]] None; (* ::ffff:127.0.0.1 is not 127.0.0.1 *)
+              SConn (V4 1) [114; 50] [[47]] None] in                           (* 0.0.0.1 is not ::1 *)
   wf_case c = true /\
-  run_case c = OServe [OC [(200, [114; 49]); (200, ok_body); (200, ok_body)]; OC [(403, [])]; OFault; OInc;
+  run_case c = OServe [OC [(200, [114; 49]); (200, ok_body); (200, ok_body)]; OC [(403, []); (431, [])]; OFault; OInc;
                        OB [(200, [114; 50]); (200, [114; 50])];
                        OC [(200, [114; 50])]; OC [(403, [])]; OC [(403, [])]].
 Proof. vm_compute. split; reflexivity. Qed.
